@@ -177,9 +177,20 @@ def _run_shard(args):
     _W['seq'] = _W.get('seq', 0) + 1
     try:
         _W['mod'].run_shard(shard, ctx)
-    except BaseException:  # noqa: BLE001
-        return idx, {'harness_error': traceback.format_exc(),
-                     'shard': repr(shard)[:300]}
+    except BaseException as exc:  # noqa: BLE001
+        if type(exc).__name__ != 'CaseTimeout':
+            return idx, {'harness_error': traceback.format_exc(),
+                         'shard': repr(shard)[:300]}
+        # A per-case alarm that went off a second time while the first
+        # time-out was still unwinding (code under test that takes longer
+        # than the alarm's repeat interval to give up): the library did not
+        # answer in time, which is an observation, not a harness failure.
+        import signal
+        signal.setitimer(signal.ITIMER_REAL, 0)
+        ctx.fail('%s/shard-abandoned-on-late-timeout/%s' % (
+            _W['prop'], h64(repr(shard))), ['late-timeout'],
+            {'kind': 'shard', 'shard': shard},
+            'every case answers within its time limit', 'timeout', True)
     res = ctx.result()
     # which worker process ran this shard, and as its how-manyth: the
     # counterexample of a failure that depends on what the LIBRARY did before
